@@ -130,8 +130,11 @@ Definition corr_ok (c : case) : bool :=
 Definition prop_ok (c : case) : bool :=
   match c with
   | CFilter q ot ast ri rt matched oob all any aret remaining unch =>
-      match ast with
-      | RunC07.OOk f =>
+      (* the meaning of the expression TEXT: the tree the documented grammar
+         gives it (Model/FilterParse.v), not the tree the implementation's
+         parser produced - a parser that reads "x OR *" as "x" is judged here *)
+      match RunC07.nf_ ot q, ast with
+      | Ok f, RunC07.OOk _ =>
           let r := to_res ri in
           let n := length (fr_units r) in
           let want := idxs n (denote (re_match rt) f r) in
@@ -143,7 +146,7 @@ Definition prop_ok (c : case) : bool :=
              measurements in order and reports whether any remain (n >= 1) *)
           && unch && nat_list_eqb remaining want
           && (if (1 <=? n)%nat then Bool.eqb aret (negb (is_nil want)) else true)
-      | _ => false
+      | _, _ => false
       end
   | CFixed q projs ot ri rt matched all any pvals =>
       match RunC07.nf_ ot q, parse_projs ot projs with
@@ -157,7 +160,13 @@ Definition prop_ok (c : case) : bool :=
                                (combine (List.filter (fun p => beq (pf_order p) ord_fixed) fields) vals))
                     (combine ps pvals) in
           let want := if fixed_ok then idxs n (denote (re_match rt) f r) else [] in
-          nat_list_eqb matched want
+          (* ... where the value of a field is its PROJECTED value: for .fullname
+             the name with the parts owned by every specifically projected key
+             (of any Parse call on the parser, earlier or LATER) deleted - the
+             declarative [fixed_keeps] of Model/FilterEval.v *)
+          let want_spec := if fixed_keeps (fullname_keys ps) ps r
+                           then idxs n (denote (re_match rt) f r) else [] in
+          nat_list_eqb matched want && nat_list_eqb matched want_spec
           && Bool.eqb all (Nat.eqb (length want) n)
           && Bool.eqb any (negb (is_nil want))
       | _, _ => false
